@@ -51,6 +51,17 @@ class C02(SessionCheck):
             for j, p, _, m in hist:
                 d2.dispatch(inst.jobs[j][p], m)
             replays.append(session.enc_dstate(d2))
+            # the recorded list itself (what `observer.history` handed out, not a copy), replayed on the very
+            # dispatcher it was recorded on after dispatcher.reset()
+            recorded = hobs[0].history
+            d0 = sess.dispatcher
+            d0.reset()
+            try:
+                for s in recorded:
+                    d0.dispatch(s.operation, s.machine_id)
+            except Exception:  # pylint: disable=broad-except
+                pass
+            replays.append(session.enc_dstate(d0))
         return {"outs": outs, "hist": hist, "replays": common.norm(replays), "final": common.norm(final_rows)}
 
     def hist_valid(self, case, outs, idx):
@@ -90,7 +101,7 @@ class C02(SessionCheck):
     def judge(self, case, obs, outs):
         model_out, _clauses, tracking, forced = outs
         io = obs["outs"]
-        fails = self.tie_failures(case, io, model_out)
+        fails = self.tie_failures(case, io, model_out) + self.reset_failures(case, io)
         # bookkeeping = from-scratch recomputation on the implementation's own rows
         for (i, o), want in zip(self.snapshots(case, io), tracking):
             d_impl = o[0]
@@ -133,7 +144,7 @@ class C02(SessionCheck):
                                          f"forced start is {want}", expected=want, observed=new[2]))
         # replay
         if obs["hist"] is not None:
-            for which, rep in zip(("fresh", "reset"), obs["replays"]):
+            for which, rep in zip(("fresh", "reset", "same (reset, recorded list object)"), obs["replays"]):
                 if rep[3] != obs["final"]:
                     fails.append(Failure("oracle", "replay-" + which,
                                          f"re-dispatching the recorded history on a {which} dispatcher does not "
